@@ -326,6 +326,12 @@ class H:
         k = self.c.occ(("fn",))
         return ("hyclosure", k, tuple(body), self.env)
 
+    def f_eval_and_compile(self, form, *body):
+        return self.body(body)          # run-time part: exactly (do body...)
+
+    def f_eval_when_compile(self, form, *body):
+        return NONE                     # contributes nothing at run time
+
     def f_and(self, form, *ops):
         return self.shortcircuit(ops, True)
 
@@ -738,7 +744,7 @@ class Seg:
 
 
 def _pyname(h):
-    return {"cond": "cond", "when": "when", "fn": "fn", "for": "for", "do": "do", "if": "if", "and": "and", "or": "or", "not": "not", "bnot": "bnot", "get": "get", "cut": "cut",
+    return {"eval-and-compile": "eval_and_compile", "eval-when-compile": "eval_when_compile", "cond": "cond", "when": "when", "fn": "fn", "for": "for", "do": "do", "if": "if", "and": "and", "or": "or", "not": "not", "bnot": "bnot", "get": "get", "cut": "cut",
             "while": "while", "break": "break", "continue": "continue", "return": "return", "raise": "raise",
             "setv": "setv", "setx": "setx", "let": "let", "with": "with", "try": "try"}.get(h, "\0none")
 
